@@ -112,8 +112,21 @@ func runCLIFull(dir, src string, p *spec.Program, o h.Opts, useStdin, useOutFile
 		return false
 	}
 	in := cliInputPath(dir)
-	args := []string{fmt.Sprintf("-optimize=%v", o.Optimize), fmt.Sprintf("-lm=%v", o.LM)}
+	if has("odd-input-path") {
+		in = cliOddInputPath
+		os.MkdirAll(filepath.Join(dir, "sub dir"), 0o755)
+	}
+	var args []string
+	if !(has("omit-default-flags") && o.Optimize) {
+		args = append(args, fmt.Sprintf("-optimize=%v", o.Optimize))
+	}
+	if !(has("omit-default-flags") && o.LM) {
+		args = append(args, fmt.Sprintf("-lm=%v", o.LM))
+	}
 	cc := writeCmdConfig(dir, p)
+	if has("empty-cc") {
+		cc = ""
+	}
 	if has("default-config-paths") {
 		// no -cc / -fc: the binary reads command_config.json and font_config.json from its working directory
 		if o.FontPath != "" {
@@ -149,7 +162,11 @@ func runCLIFull(dir, src string, p *spec.Program, o h.Opts, useStdin, useOutFile
 		args = append(args, "-s", kk+"="+o.Switches[kk])
 	}
 	if !useStdin {
-		if err := os.WriteFile(in, []byte(src), 0o644); err != nil {
+		target := in
+		if has("odd-input-path") {
+			target = filepath.Join(dir, "sub dir", "ünï \"q\".pory")
+		}
+		if err := os.WriteFile(target, []byte(src), 0o644); err != nil {
 			return cliResult{Err: err}
 		}
 		args = append(args, "-i", in)
@@ -161,7 +178,7 @@ func runCLIFull(dir, src string, p *spec.Program, o h.Opts, useStdin, useOutFile
 		args = append(args, "-o", outFile)
 	}
 	cmd := exec.Command(bin, args...)
-	if has("default-config-paths") {
+	if has("default-config-paths") || has("odd-input-path") {
 		cmd.Dir = dir
 	}
 	var so, se bytes.Buffer
@@ -192,3 +209,7 @@ func runCLIFull(dir, src string, p *spec.Program, o h.Opts, useStdin, useOutFile
 }
 
 func cliInputPath(dir string) string { return filepath.Join(dir, "input.pory") }
+
+// cliOddInputPath is a relative input path (the binary runs in the case's directory) that no path clean-up
+// leaves alone: "./", "..", "//", a blank, non-ASCII letters and quotes. Markers must name it as given.
+const cliOddInputPath = "./sub dir/../sub dir//ünï \"q\".pory"
